@@ -11,6 +11,7 @@ import (
 	"Havoc/pkg/agent"
 	"Havoc/pkg/events"
 	"Havoc/pkg/packager"
+	"Havoc/pkg/verifhook"
 )
 
 func (t *Teamserver) AgentUpdate(agent *agent.Agent) {
@@ -23,6 +24,7 @@ func (t *Teamserver) AgentUpdate(agent *agent.Agent) {
 func (t *Teamserver) Died(Agent *agent.Agent) {
 	Agent.Active = false
 	t.UnlinkFromAll(Agent)
+	verifhook.Point("ts.died.mid")
 	t.EventAgentMark(Agent.NameID, "Dead")
 	t.AgentUpdate(Agent)
 }
@@ -91,6 +93,7 @@ func (t *Teamserver) LinkRemove(ParentAgent *agent.Agent, LinkAgent *agent.Agent
 		}
 	}
 
+	verifhook.Point("ts.linkremove.mid")
 	err := t.DB.LinkRemove(int(ParentAgentID), int(LinkAgentID))
 	if err != nil {
 		logger.Error("Could not remove link to database: " + err.Error())
